@@ -92,7 +92,7 @@ class Cluster(object):
         master_average = self.signal_by_index(self.master_index).get_section_average(start=start, end=end)
         for i in range(len(self.signals)):
             if i != self.master_index:
-                slave_signal = self.signal_by_index(1)
+                slave_signal = self.signal_by_index(i)
                 slave_average = slave_signal.get_section_average(start=start, end=end)
                 diff = slave_average - master_average
                 if verbose:
